@@ -1,5 +1,6 @@
 /*VERIF
 { "tu": "src/apply.c", "enforce": "_dispatch_apply_serial", "props": ["C10"], "seq": true, "timeout": 120,
+  "assumes": ["autorelease-pool hooks are installed whenever DISPATCH_INVOKE_AUTORELEASE_ALWAYS is set: dispatch_invoke_with_autoreleasepool tells the compiler that the pool is non-NULL (DISPATCH_COMPILER_CAN_ASSUME(pool)); without hooks _dispatch_autorelease_pool_push() returns NULL and that hint is false (undefined behaviour of the real code on this platform, outside the listed properties; reported in DESIGN.md 10.6, not repaired)"],
   "stub_note": "_dispatch_client_callout2 (the client work function): counts calls and checks the index; _dispatch_apply_autorelease_frequency, _dispatch_continuation_free: stubs" }
 VERIF*/
 #ifdef VERIF_PRE
@@ -10,7 +11,8 @@ size_t H_calls; _Bool H_in_order; unsigned H_frees; void *H_ctxt_seen_ok;
 static void h_work(void *c, size_t i) { (void)c; (void)i; }
 void _dispatch_client_callout2(void *ctxt, size_t i, void (*f)(void *, size_t))
 { if (i != H_calls || f != h_work || ctxt != H_dc.dc_ctxt) H_in_order = 0; H_calls++; }
-void *_dispatch_autorelease_pool_push(void) { return 0; }
+/* models the autorelease hooks being installed (non-NULL pool): see "assumes" */
+void *_dispatch_autorelease_pool_push(void) { static char pool_token; return &pool_token; }
 void _dispatch_autorelease_pool_pop(void *context) { (void)context; }
 static inline dispatch_invoke_flags_t _dispatch_apply_autorelease_frequency(dispatch_queue_t dq) { (void)dq; return 0; }
 static inline void _dispatch_continuation_free(dispatch_continuation_t dc) { if ((void *)dc == (void *)&H_da) H_frees++; }
